@@ -522,6 +522,16 @@ def interp_err_class(r, mb=None):
                 return (str(r[0]) + ":" if isinstance(r, tuple) else "") + hit[0]
         except Exception:  # noqa: BLE001
             pass
+    if mb is not None and "batch_matmul.cc" in msg and "lhs_data->type" in msg:
+        # finding D42: BATCH_MATMUL reading a constant LEFT operand that was stored as int8 next to a float32 / int16 right operand
+        try:
+            from . import fam_numeric as _fn
+            m_ = read(mb)
+            hit = [v for v in (_fn.op_variant(m_, sg, op) for sg in m_.subgraphs for op in sg.operators) if v.startswith("BATCH_MATMUL:const-lhs")]
+            if hit:
+                return (str(r[0]) + ":" if isinstance(r, tuple) else "") + hit[0]
+        except Exception:  # noqa: BLE001
+            pass
     if "batch_matmul.cc" in msg and "rhs_data->type" in msg and mb is not None and _int4_bmm_rhs(mb):
         # finding D37: the emulated sub-channel pattern hands a 4-bit constant to BATCH_MATMUL, whose kernel takes float32/int8/int16 only
         return (str(r[0]) + ":" if isinstance(r, tuple) else "") + "BATCH_MATMUL:int4-rhs"
